@@ -15,7 +15,7 @@
 (* dry_equals_real_path_mode_override (every strategy; only "custom path" is never answered),             *)
 (* dry_equals_real_path_mode_general (both).                                                              *)
 From Tempren Require Import Base.Str Py.PathLib Py.PathLibProofs FS.Model FS.Lemmas FS.RealpathAgree FS.DirExt
-  FS.WfCheck Pipe.Pipeline Pipe.DrySim Pipe.Confined Pipe.ConfinedMove Pipe.PlanExact Pipe.PlanExactPath
+  FS.WfCheck Pipe.Pipeline Pipe.DestParent Pipe.DrySim Pipe.Confined Pipe.ConfinedMove Pipe.PlanExact Pipe.PlanExactPath
   FS.PlainPaths Pipe.DryEqualsReal.
 Open Scope N_scope.
 
@@ -432,6 +432,30 @@ Proof.
     + rewrite app_length. rewrite E, app_length in Hlen. unfold name in *. lia.
     + apply (dm_prefix _ (pf_dir f ++ pp_parts np) _ r); [rewrite E, app_assoc; reflexivity | exact (do_dm _ _ _ D)].
     + apply dn_not_link. apply (do_dm _ _ _ D (pf_dir f ++ q) r); [rewrite E, app_assoc; reflexivity | exact Hr].
+Qed.
+
+(* the directory of the destination entry (F34): a path of directories-or-missing below the input directory *)
+Lemma dest_parent_contained_dm s f np :
+  lookup s (pf_dir f) = Some NDir -> ~ In dotdot (pf_dir f) -> dest_ok s (pf_dir f) np ->
+  dest_parent_contained s f np = Some true.
+Proof.
+  intros Hd Hddd D. pose proof (dest_ok_ne _ _ _ D Hd) as Hne.
+  unfold dest_parent_contained, dest_parent. rewrite (do_root _ _ _ D). cbn [Nat.eqb].
+  rewrite (removelast_app_ne _ _ Hne).
+  assert (E : pp_parts np = removelast (pp_parts np) ++ [last (pp_parts np) []])
+    by (symmetry; apply removelast_last_app; exact Hne).
+  pose proof (do_len _ _ _ D) as Hlen.
+  assert (Hdm : dm s (pf_dir f ++ removelast (pp_parts np))).
+  { apply (dm_prefix _ (pf_dir f ++ pp_parts np) _ [last (pp_parts np) []]); [|exact (do_dm _ _ _ D)].
+    rewrite <- app_assoc. f_equal. exact E. }
+  rewrite realpath_dm.
+  - f_equal. apply is_prefix_path_spec. eexists. reflexivity.
+  - apply notin_app_dd; [exact Hddd|]. intros K. apply (do_dd _ _ _ D). apply In_removelast. exact K.
+  - rewrite app_length. rewrite E, app_length in Hlen. unfold name in *. lia.
+  - exact Hdm.
+  - apply dn_not_link.
+    apply (do_dm _ _ _ D (pf_dir f ++ removelast (pp_parts np)) [last (pp_parts np) []]); [|discriminate].
+    rewrite <- app_assoc. f_equal. exact E.
 Qed.
 
 (* a plain relative path (DryEqualsReal.plain_rel) is such a path too *)
@@ -1024,6 +1048,8 @@ Proof.
     rewrite (sp_fs _ _ S).
     rewrite (contained_dm s0 f np Hddd Dd).
     rewrite (contained_dm (w_fs wr) f np Hddd Dx).
+    rewrite dest_parent_test_fixed, (dest_parent_contained_dm s0 f np Ld Hddd Dd).
+    rewrite dest_parent_test_fixed, (dest_parent_contained_dm (w_fs wr) f np (SimP_dir_stays _ _ _ S Ld) Hddd Dx).
     rewrite (parents_contained_dm s0 f np W0 Ld Hddd Dd).
     rewrite (parents_contained_dm (w_fs wr) f np (sp_wf _ _ S) (SimP_dir_stays _ _ _ S Ld) Hddd Dx).
     rewrite (source_contained_rel s0 f W0 Ps), (source_contained_rel (w_fs wr) f (sp_wf _ _ S) (SimP_plain_rel _ _ _ _ S Ps)).
